@@ -1,20 +1,43 @@
-Check (C01_queues_wellformed_in_every_reachable_state : forall b script m0 ops, build b script = inl m0 -> WInv (m_writer (fst (run m0 ops)))).
-Check (C01_schedule_is_sorted_permutation : forall vs as_, Permutation (compute_interleave_schedule vs as_) (video_entries vs ++ audio_entries as_) /\ Sorted sched_le (compute_interleave_schedule vs as_)).
-Check (C01_schedule_keeps_video_in_sample_order : forall vs as_, dts_increasing vs -> filter is_video_entry (compute_interleave_schedule vs as_) = video_entries vs).
-Check (C01_schedule_keeps_audio_in_sample_order : forall vs as_, pts_nondecreasing as_ -> filter is_audio_entry (compute_interleave_schedule vs as_) = audio_entries as_).
-Check (C01_fast_start_offsets_address_samples : forall vs as_ start pre post vo ao,
+Open Scope N_scope.
+Check (C01_queues_wellformed_in_every_reachable_state : (forall b script m0 ops,
+  build b script = inl m0 -> WInv (m_writer (fst (run m0 ops))))%type).
+Check (C01_schedule_is_sorted_permutation : (forall vs as_,
+  Permutation (compute_interleave_schedule vs as_) (video_entries vs ++ audio_entries as_) /\
+  Sorted sched_le (compute_interleave_schedule vs as_))%type).
+Check (C01_schedule_keeps_video_in_sample_order : (forall vs as_,
+  dts_increasing vs -> filter is_video_entry (compute_interleave_schedule vs as_) = video_entries vs)%type).
+Check (C01_schedule_keeps_audio_in_sample_order : (forall vs as_,
+  pts_nondecreasing as_ -> filter is_audio_entry (compute_interleave_schedule vs as_) = audio_entries as_)%type).
+Check (C01_fast_start_offsets_address_samples : (forall vs as_ start pre post vo ao,
   dts_increasing vs -> pts_nondecreasing as_ -> len pre = start ->
   walk_offsets vs as_ (compute_interleave_schedule vs as_) start = WalkOk vo ao ->
   let file := pre ++ concat (map (sched_data vs as_) (compute_interleave_schedule vs as_)) ++ post in
   length vo = length vs /\ length ao = length as_ /\
-  (forall i s o, nth_error vs i = Some s -> nth_error vo i = Some o -> take (len (s_data s)) (drop o file) = s_data s) /\
-  (forall i s o, nth_error as_ i = Some s -> nth_error ao i = Some o -> take (len (s_data s)) (drop o file) = s_data s)).
-Check (C01_standard_offsets_address_samples : forall vs as_ start pre post bufs vo ao,
+  (forall i s o, nth_error vs i = Some s -> nth_error vo i = Some o ->
+                 take (len (s_data s)) (drop o file) = s_data s) /\
+  (forall i s o, nth_error as_ i = Some s -> nth_error ao i = Some o ->
+                 take (len (s_data s)) (drop o file) = s_data s))%type).
+Check (C01_standard_offsets_address_samples : (forall vs as_ start pre post bufs vo ao,
   dts_increasing vs -> pts_nondecreasing as_ -> len pre = start ->
-  Forall (fun s => (len (s_data s) < 4294967296)%N) vs -> Forall (fun s => (len (s_data s) < 4294967296)%N) as_ ->
+  Forall (fun s => len (s_data s) < 4294967296) vs -> Forall (fun s => len (s_data s) < 4294967296) as_ ->
   walk_std vs as_ (compute_interleave_schedule vs as_) start [] [] [] = (bufs, vo, ao, true) ->
   let file := pre ++ concat bufs ++ post in
   bufs = map (sched_data vs as_) (compute_interleave_schedule vs as_) /\
   length vo = length vs /\ length ao = length as_ /\
-  (forall i s o, nth_error vs i = Some s -> nth_error vo i = Some o -> take (len (s_data s)) (drop o file) = s_data s) /\
-  (forall i s o, nth_error as_ i = Some s -> nth_error ao i = Some o -> take (len (s_data s)) (drop o file) = s_data s)).
+  (forall i s o, nth_error vs i = Some s -> nth_error vo i = Some o ->
+                 take (len (s_data s)) (drop o file) = s_data s) /\
+  (forall i s o, nth_error as_ i = Some s -> nth_error ao i = Some o ->
+                 take (len (s_data s)) (drop o file) = s_data s))%type).
+Check (C01_finished_file_resolves_to_submitted_samples : (forall b m0 ops m rs s,
+  build b [] = inl m0 -> run m0 ops = (m, rs) -> In (RStats s) rs ->
+  Forall op_payload_ok ops -> len (sink_of m) < 4294967296 ->
+  check_C01 b ops (map class_of rs) (sink_of m) = true)%type).
+Check (C01_accepted_history_matches_queues : (forall b m0 ops m rs,
+  build b [] = inl m0 -> run m0 ops = (m, rs) -> Forall op_payload_ok ops ->
+  (forall p, ~ In (RPanic p) rs) ->
+  let h := accepted b ops (map class_of rs) in
+  map (fun s => (s_pts s, s_dts s, s_data s, s_key s)) (vsamples (m_writer m)) =
+    map (fun f => (vf_pts f, vf_dts f, frame_video (cfg_codec b) (vf_data f), vf_key f)) (h_v h) /\
+  map (fun s => (s_pts s, s_data s)) (asamples (m_writer m)) =
+    map (fun f => (af_pts f,
+                   match cfg_audio b with Some a => frame_audio a (af_data f) | None => [] end)) (h_a h))%type).
